@@ -18,6 +18,7 @@ def check(pid):
 # binaries: name -> (package dir under the overlay root, race?)
 BINARIES = {
     "c19": ("zzverif/cmd/c19", False),
+    "c19_386": ("zzverif/cmd/c19", False, "386"),  # the same harness for a 32-bit platform (int and uint are 32 bits wide there)
     "flow": ("zzverif/cmd/flow", False),
     "nf5": ("zzverif/cmd/nf5", False),
     "crash": ("zzverif/cmd/crash", False),
@@ -87,8 +88,9 @@ _built = {}
 def build(name):
     if name in _built and os.path.exists(_built[name]):
         return _built[name]
-    pkg, race = BINARIES[name]
-    _built[name] = go_build(name, pkg, race=race, extra_overlay=instrument(name))
+    pkg, race = BINARIES[name][:2]
+    goarch = BINARIES[name][2] if len(BINARIES[name]) > 2 else None
+    _built[name] = go_build(name, pkg, race=race, extra_overlay=instrument(name), goarch=goarch)
     import shutil
     shutil.rmtree(os.path.join(orch.BUILD, "instr_%d" % os.getpid()), ignore_errors=True)
     return _built[name]
@@ -99,10 +101,17 @@ def c19(tier):
     t0 = time.time()
     b = build("c19")
     res = [run_space(b, "bfs", tier), run_space(b, "seq", tier), run_space(b, "wide", tier)]
+    # the reader is platform independent by its statement: the same spaces on a 32-bit build (GOARCH=386 runs on this
+    # kernel), where int / uint are 32 bits wide - quick depth, both tiers
+    b32 = build("c19_386")
+    for sp in ("bfs", "seq", "wide"):
+        r = run_space(b32, sp, "quick")
+        r.space += "@386"
+        res.append(r)
     return finish("C19", tier, res,
                   rule="bfs: one case per buffer (length 0..9 x 2 content families, handed over with spare capacity filled with sentinels), explored to closure over (reference position, all fields of the real Reader) with all 27 operations from every state; "
                        "seq: every operation sequence of length 5 (quick) / 6 (thorough) without state merging, rooted at (buffer, first two ops); "
-                       "wide: buffers of 255, 256, 257, 65535, 65536, 65537, 65600 octets x every operation sequence of length 3 (thorough 4) over the 5 fixed-width ops, len, count and read/peek with n in {0,1,2,127,128,254..257,32767,32768,65534..65537,L-1,L,L+1} (integer-width boundaries of positions, counts and arguments). "
+                       "wide: buffers of 255, 256, 257, 65535, 65536, 65537, 65600 octets x every operation sequence of length 3 (thorough 4) over the 5 fixed-width ops, len, count and read/peek with n in {0,1,2,127,128,254..257,32767,32768,65534..65537,L-1,L,L+1} (integer-width boundaries of positions, counts and arguments). The three spaces are repeated (quick depth) with the harness built for GOARCH=386, where int and uint are 32 bits wide. "
                        "Non-trivial = buffer explored (bfs) / root whose subtree contains a sequence that consumed octets (seq); distinct by content hash.",
                   assumptions=["BFS states are merged on the reference position together with a by-value rendering of every field of reader.Reader (buffer contents excluded); a field that cannot be rendered by value switches the merge off (exhaustive:false, the unmerged spaces remain)",
                                "whether returned octets are a view of the buffer or a copy is not part of the statement and not checked",
@@ -131,13 +140,13 @@ def aging_space(race=False):
 def flow_records(pid, proto, tier):
     t0 = time.time()
     b = build("flow")
-    names = ["tpl2", "tpl3s", "pad8", "twosets", "allelems", "loaded", "counts"]
+    names = ["tpl2", "tpl3s", "pad8", "twosets", "allelems", "loaded", "counts", "typeinfo"]
     if tier == "thorough":
         names.append("tpl3")
     res = [run_space(b, proto + "." + n, tier) for n in names]
     res.append(aging_space())
     return finish(pid, tier, res,
-                  rule="cases are generated from an abstract description: template of 1..3 field kinds over the kind alphabet (one element per abstract type x encoding class: natural, reduced-size, fixed string/octets, variable length with 1- and 3-octet prefixes, enterprise) x scope split 0..n x 1..3 records x padding 0..3 (pad8: 4..7) x 4 value patterns x template in an earlier / the same message; twosets: two templates and two data sets in either order; allelems: every model element as a one-field template in each encoding class; loaded: the same sweep after the model has been replaced through the real ipfix.LoadExtElements from a generated ipfix.elements file (every element, every fifth re-typed, plus the private ones) - decoding must follow the model in force; counts: N records in a set / N fields in a template / N data sets in a message / N templates in one template set / (IPFIX) N records whose variable-length value differs in length from record to record, N in {1..4, 7..9, 15..18, 31..33, 63..65, 100, 127..129, 255..257, 511..513, 1000, 1023..1025, 4000} (thorough: every N up to 1100 and around 2048, 4096) as far as 65000 octets allow." + AGING_RULE + " "
+                  rule="cases are generated from an abstract description: template of 1..3 field kinds over the kind alphabet (one element per abstract type x encoding class: natural, reduced-size, fixed string/octets, variable length with 1- and 3-octet prefixes, enterprise) x scope split 0..n x 1..3 records x padding 0..3 (pad8: 4..7) x 4 value patterns x template in an earlier / the same message; twosets: two templates and two data sets in either order; allelems: every model element as a one-field template in each encoding class; loaded: the same sweep after the model has been replaced through the real ipfix.LoadExtElements from a generated ipfix.elements file (every element, every fifth re-typed, plus the private ones) - decoding must follow the model in force; counts: N records in a set / N fields in a template / N data sets in a message / N templates in one template set / (IPFIX) N records whose variable-length value differs in length from record to record, N in {1..4, 7..9, 15..18, 31..33, 63..65, 100, 127..129, 255..257, 511..513, 1000, 1023..1025, 4000} (thorough: every N up to 1100 and around 2048, 4096) as far as 65000 octets allow; typeinfo: for every element of the model an RFC 5610 type-information option record (with and without the enterprise-number scope) that claims another data type for it, then a template using the element from the same / another exporter - the record decodes as ordinary option data, the element is still decoded by the collector's model, the model entry is unchanged." + AGING_RULE + " "
                        "Non-trivial = every executed case (each carries >=1 record); distinct = distinct wire octets (FNV-64 of the message and of the announcing messages).",
                   assumptions=FLOW_ASSUME, t0=t0)
 
@@ -288,9 +297,10 @@ def c20(tier):
     b = build("c20")
     env = {"VERIF_REPO": orch.REPO, "VERIF_DIR": orch.VERIF}
     res = [run_space(b, "model.entries", tier, env=env), run_space(b, "model.decode", tier, env=env)]
+    res.append(run_space(build("flow"), "ipfix.typeinfo", tier))
     return finish("C20", tier, res,
                   rule="model.entries: one case per element of the union of the built-in table, the table produced by LoadExtElements on scripts/ipfix.elements and the registry snapshot (402): present in all, same name and type, FieldID = key id, type NAME (read from the Go source text and from the YAML) recognised and equal to the snapshot, table unchanged when the file is absent. "
-                       "model.decode: every element x {natural/fixed length, 1 octet, variable length} x 3 value patterns decoded under both tables (identical) and against the reference interpretation of the snapshot type. Non-trivial = every element / case.",
+                       "model.decode: every element x {natural/fixed length, 1 octet, variable length} x 3 value patterns decoded under both tables (identical) and against the reference interpretation of the snapshot type. ipfix.typeinfo: the model also stays what it is at RUN TIME - for every element an RFC 5610 type-information record claiming another data type is decoded (as ordinary option data), the element is still decoded by the model and its entry is unchanged. Non-trivial = every element / case.",
                   assumptions=["the registry snapshot /verif/models/ipfix_registry.json was taken from the pinned tree's shipped file (the IANA registry is not reachable offline): drift and disagreement are detected, a transcription error common to both tables and the snapshot is not"], t0=t0)
 
 
@@ -376,9 +386,25 @@ def c11(tier):
             res.append(r)
     import shutil
     shutil.rmtree(tmp, ignore_errors=True)
+    # the cache file on ANOTHER FILESYSTEM than the system's temporary directory (a tmpfs): saving must not depend on
+    # where temporary files live (a "write to a temp file, then rename" that crosses filesystems fails with EXDEV)
+    other_fs = None
+    try:
+        if os.path.isdir("/dev/shm") and os.stat("/dev/shm").st_dev != os.stat(tempfile.gettempdir()).st_dev and os.access("/dev/shm", os.W_OK):
+            other_fs = tempfile.mkdtemp(prefix="verif_c11_", dir="/dev/shm")
+    except OSError:
+        other_fs = None
+    if other_fs:
+        try:
+            for proto in ("ipfix", "v9"):
+                r = run_space(b, proto + ".roundtrip", tier, env={"VERIF_TMP": other_fs, "VERIF_WRITE_MODEL": json.dumps(models[proto])}, hang_s=60)
+                r.space += "@other-filesystem"
+                res.append(r)
+        finally:
+            shutil.rmtree(other_fs, ignore_errors=True)
     res.append(aging_space())
     return finish("C11", tier, res,
-                  rule="per protocol: roundtrip: 6 (thorough 40) cache contents reached by decoding announcements (0..240 templates; plain/options/enterprise/variable-length; IPv4-mapped, 4-byte and IPv6 exporters) dumped, loaded, every key probed with a well-formed data message and compared with the live cache, second generation identical; the same content saved by ANOTHER process and loaded by this one (a restart is never the same process); a smaller cache saved over a longer file; a run that starts from the file, sees a third of its templates re-announced with another definition (no new key) and saves; "
+                  rule="per protocol: roundtrip: 6 (thorough 40) cache contents reached by decoding announcements (0..240 templates; plain/options/enterprise/variable-length; IPv4-mapped, 4-byte and IPv6 exporters) dumped, loaded, every key probed with a well-formed data message and compared with the live cache, second generation identical; the same content saved by ANOTHER process and loaded by this one (a restart is never the same process); a smaller cache saved over a longer file; the whole round trip repeated with the cache file on another filesystem than the temporary directory (tmpfs /dev/shm, where present); a run that starts from the file, sees a third of its templates re-announced with another definition (no new key) and saves; "
                        "crash: every image the observed write history of Dump can leave (old file, empty, EVERY byte prefix, prefixes zero-filled to 512/4096-octet boundaries and to full length, complete) - loaded cache must be a subset of the saved one and usable; "
                        "bytes: every position x 13 substitution octets, every single-octet deletion and duplication; struct: 28 Cache shapes x 11 ShardNo forms x 2 key orders + absent/empty/directory/non-JSON files. Usable = announce+data succeeds for 96 probe exporters;" + AGING_RULE + " after every crash image and every byte corruption the loaded entries are also USED: data for every exporter/template of the saved content is decoded (the decoder must cope with whatever the altered file made of them). Non-trivial = every case; distinct = file octets.",
                   assumptions=["write history of Dump: " + models["ipfix"]["source"],
@@ -599,7 +625,8 @@ def binary_shutdown_runs(n):
                 th = threading.Thread(target=flood, daemon=True)
                 th.start()
                 time.sleep(0.05 * (k % 5))
-            rc, lat = col.terminate(signal.SIGINT if k % 3 == 2 else signal.SIGTERM)
+            # every other run: the signal is sent a second time 0.3 s later, while the collector is still stopping
+            rc, lat = col.terminate(signal.SIGINT if k % 3 == 2 else signal.SIGTERM, second_after=0.3 if k % 2 == 0 else None)
             stop[0] = True
             if th:
                 th.join()
@@ -671,7 +698,7 @@ def c15(tier):
                   rule="per pipeline: the real run()/workers/shutdown() under main()'s orchestration (replicated: start, wait for the signal, shutdown, wait) in scenarios idle / data before the signal / data around the signal (queue capacity 1000 and 1) / template burst around the signal, two stop-start cycles each; every schedule within the deviation bound, where a deviation is also a timer firing while other threads are still runnable (a thread descheduled for a second). "
                        "Second space (template cache lock operations are scheduling points too): a template datagram the receive loop has read (counted) right before the signal, deviation bound 2 — the dump against a worker that has taken the datagram off the queue but not stored the template yet. "
                        "a start between the two cycles that gets the signal AT ONCE (as soon as main has installed its handler: no listener yet, no traffic, no look at the counters), and a restart after two hours (thorough: 400 days) of downtime. Oracle: no panic (send on / close of closed channel, nil dereference), no deadlock, main returns within 10 virtual seconds of the signal, no race report, the cache file left behind loads and holds the template processed before the signal and every template whose datagram had been received (counted) before the signal unless runnable threads were held up for a second or more in total (early timer firings), after the restart data for it is published at once. "
-                       "Trace validation: %d runs of the shipped binary (real signals SIGTERM/SIGINT, loopback traffic incl. a flood during the signal, TCP sink behind the rawSocket producer, restart on the same cache files)." % nruns,
+                       "Trace validation: %d runs of the shipped binary (real signals SIGTERM/SIGINT, loopback traffic incl. a flood during the signal, TCP sink behind the rawSocket producer, restart on the same cache files; in every other run the signal is repeated 0.3 s later, while the collector is stopping)." % nruns,
                   assumptions=PIPE_ASSUME + ["main()'s 20 lines of orchestration are replicated next to the real run()/shutdown() because GetOptions (flag registration, PID file, kill -0) cannot be re-run per execution",
                                              "virtual clock: time advances when every thread is blocked; in addition a timer may fire early at the cost of one deviation",
                                              "'acknowledged before the signal' = the template datagram was fully processed (quiescence) before the signal was sent",
@@ -787,7 +814,7 @@ def c14(tier):
     b = build("prod")
     d, env = sched_env("c14")
     env.pop("GORACE", None)
-    res = [run_space(b, "prod.tcp", tier, env=env, hang_s=90), run_space(b, "prod.udp", tier, env=env, hang_s=90), run_space(b, "prod.burst", tier, env=env, hang_s=90)]
+    res = [run_space(b, "prod.tcp", tier, env=env, hang_s=90), run_space(b, "prod.udp", tier, env=env, hang_s=90), run_space(b, "prod.burst", tier, env=env, hang_s=90), run_space(b, "prod.stall", tier, env=env, hang_s=120)]
     import shutil
     shutil.rmtree(d, ignore_errors=True)
     return finish("C14", tier, res,
@@ -795,6 +822,7 @@ def c14(tier):
                        "3 message sets (plain JSON; per-cent sequences 100% %d %s %% %; empty / 5 KB / 70 KB messages). Faults are injected while the producer is blocked on its input channel and are followed by a TCP_INFO barrier on the producer's own socket (no sleeps). "
                        "Oracle: per sink connection the lines (split at newline; an unterminated tail of a dead connection is not a message) form an in-order, duplicate-free, byte-identical subsequence of the messages; losses <= messages handed over while the sink was down + 2 per fault; error counter 0 without faults; Run returns when the channel is closed. "
                        "prod.burst: buffered channel as in the collector, bursts of 1..3 messages while the sink is up / while it is away (listener down + RST) / after it is back x retry-max 0/1/2 x plain and shared-buffer messages; state barrier 'queue empty and producer parked in its receive' between the phases; what the sink got must be an in-order, duplicate-free, byte-identical subsequence containing the whole first burst, and the producer must come to rest. "
+                       "prod.stall: the sink stays connected but stops reading while 24 MiB are in flight, the producer blocks in its write (state barrier: its goroutine is in 'IO wait') for 6 s (thorough 35 s) of real time, then the sink reads on: every message arrives once, whole, in order (a blocked write is not a failed one). "
                        "prod.udp: udp configuration, sink up/down per message (all 32 masks) x retry-max x message sets; every datagram is exactly the next message + newline. states = fault sequences executed, transitions = messages handed over.",
                   assumptions=["the environment is the real Linux loopback TCP/UDP stack, not a model: every explored fault sequence is a real kernel trace",
                                "only producer.go + rawSocket.go are decided; the Kafka (sarama, segmentio), NSQ and NATS drivers need a broker and cannot be exercised offline",
